@@ -49,6 +49,7 @@ func main() {
 		out := fs.String("out", ".", "output directory")
 		seed := fs.Uint64("seed", 1, "seed")
 		thorough := fs.Bool("thorough", false, "thorough tier")
+		fs.BoolVar(&exhaustive2, "exhaustive", false, "with -thorough: also every 0/1/2-byte input into every small reader")
 		rounds := fs.Int("rounds", 6, "message rounds per type")
 		slices := fs.String("slices", "prim,calc,msg", "which case files to emit")
 		only := fs.String("types", "", "restrict message cases to these type ids")
